@@ -20,6 +20,10 @@ NAMES = ["punctuation_verylow", "punctuation_root", "punctuation_symetrify"]
 def punct(m, n, t, nw, relc, rp, same=False, **kw):
     ip, lp = e1_get(kw, m, n)
     words = [WORDS[kw["w%d" % j] % nw] for j in range(1, n + 1)]
+    # the comma-class token is represented by every member of the documented class in turn (derived from the other
+    # selectors, so that the number of paths does not grow)
+    cm = PUNCT[17:][(sum(kw["w%d" % j] * (j + 1) for j in range(1, n + 1)) + sum(lp) * 3 + t) % 10]
+    words = [cm if w == "," else w for w in words]
     # one other token carries a POS tag that is a proper substring of the designated label
     repos = (rp + 1 if rp < n else rp - 1) if relc else 0
     pos = ["REL" if (relc and rp == j) else ("RE" if (relc and j == repos) else "P%d" % j) for j in range(1, n + 1)]
